@@ -156,5 +156,70 @@ Proof.
   apply run_all_terminates; [assumption | apply Hl; auto | unfold run_all_fuel, meas; lia].
 Qed.
 
+Lemma cleared_one_storerr s i : s_storerr (cleared_one s i) = s_storerr s.
+Proof.
+  unfold cleared_one, chunk_release.
+  repeat match goal with
+         | |- context [if ?c then _ else _] => destruct c
+         | |- context [match ?x with _ => _ end] => destruct x
+         end; simpl; auto.
+Qed.
+
+Lemma wrapper_close_storerr s : s_storerr (wrapper_close s) = s_storerr s.
+Proof.
+  unfold wrapper_close.
+  assert (Hf : forall (l : list (nat * list N)) t, s_storerr (fold_left (fun a e => cleared_one a (fst e)) l t) = s_storerr t).
+  { induction l as [|e l IH]; intros t; simpl; auto. rewrite IH. apply cleared_one_storerr. }
+  unfold hq_remove_all.
+  destruct (s_open (fold_left (fun a e => cleared_one a (fst e)) (s_hq (ht_clear s)) (set_hq (ht_clear s) []))).
+  - match goal with |- context [if ?c then _ else _] => destruct c end; simpl; rewrite Hf; reflexivity.
+  - rewrite Hf. reflexivity.
+Qed.
+
+Lemma do_open_fields s : s_delay (do_open pl s) = s_delay s /\ s_out (do_open pl s) = s_out s.
+Proof. unfold do_open. destruct (s_open s); simpl; auto. Qed.
+
+(* "... or a storage error": when a file cannot be opened (errno other than ENOENT) at ANY piece, the
+   check is aborted.  In that state — and at every other moment — no wrong bit is set; the pending
+   notification then reports the storage error and closes the download completely (no bitfield, no
+   chunk list, nothing queued, no internal error); after that the torrent can be opened and checked
+   again, and that check terminates (completed, or aborted again if the file is still unreadable)
+   without an internal error. *)
+Theorem storage_error_sound ops :
+  polite (init fs0) ops ->
+  let s := run ops (init fs0) in
+  (forall bl i, s_bits s = Some bl -> nth i bl false = true -> valid H pl expected fs0 i = true) /\
+  (s_delay s = true -> is_checking s = false ->
+     let s1 := do_tick s in
+     s_storerr s1 = true /\ s_open s1 = false /\ s_bits s1 = None /\ s_nodes s1 = [] /\ s_hq s1 = [] /\
+     s_ierr s1 = false /\
+     let s2 := do_check pl false (do_open pl s1) in
+     s_ierr s2 = false /\ is_checking (run_all H pl expected (run_all_fuel s2) s2) = false).
+Proof.
+  intros Hp s. split.
+  { intros bl i Hb Hi. eapply check_sound; eauto. }
+  intros Hd Hc s1.
+  pose proof (run_inv ops _ init_inv Hp) as HI. fold s in HI.
+  destruct HI as [HR HC].
+  assert (Hs1 : s1 = wrapper_close (set_storerr (set_delay s false) true)).
+  { unfold s1, do_tick. rewrite Hd. cbn [negb]. unfold is_checking in *. cbn [s_out set_delay].
+    destruct (s_out s); [discriminate | reflexivity]. }
+  assert (HR' : invR H pl expected fs0 None (set_storerr (set_delay s false) true)).
+  { eapply invR_frame; eauto; simpl; discriminate. }
+  destruct (wrapper_close_inv H pl expected fs0 _ HR') as (A & A2 & A3 & A4 & A5 & A6 & A7 & A8).
+  rewrite <- Hs1 in *.
+  assert (Hst : s_storerr s1 = true) by (rewrite Hs1, wrapper_close_storerr; reflexivity).
+  assert (Hie : s_ierr s1 = false) by (destruct A as [AR _]; apply (r_ierr _ _ _ _ _ _ AR)).
+  repeat (split; [assumption|]).
+  intros s2.
+  pose proof (do_open_inv H pl expected fs0 s1 A) as HIo.
+  destruct (do_open_fields s1) as [Fd Fo].
+  destruct (do_check_inv H pl expected fs0 false (do_open pl s1) HIo) as [HI2 Hl]; [rewrite Fd; assumption|].
+  fold s2 in HI2, Hl. split.
+  - destruct HI2 as [AR _]. apply (r_ierr _ _ _ _ _ _ AR).
+  - apply (run_all_terminates (run_all_fuel s2) s2); [assumption| |unfold run_all_fuel, meas; lia].
+    apply Hl; [reflexivity|]. unfold is_checking. rewrite Fo, A3. reflexivity.
+Qed.
+
 End Fixed.
 End Top.
